@@ -223,6 +223,20 @@ FIXED = [
 ]
 
 
+def corpus_sequences():
+    """corpus/C04/typing/*.seq: one sequence per line ('#' starts a comment); run after FIXED on every run"""
+    d = os.path.join(VERIF, "corpus", "C04", "typing")
+    out = []
+    if os.path.isdir(d):
+        for fn in sorted(os.listdir(d)):
+            if fn.endswith(".seq"):
+                for l in open(os.path.join(d, fn)):
+                    l = l.split("#")[0].strip()
+                    if l:
+                        out.append(l)
+    return out
+
+
 # ------------------------------------------------------------------------------------------------
 # running both sides
 # ------------------------------------------------------------------------------------------------
@@ -454,8 +468,8 @@ def run_part(ck, quick=True):
     impl = os.path.join(bindir, "unify_run")
 
     rng = ck.rng.fork("typing")
-    ncases = 4000 if quick else 60000
-    lines = [f[1] for f in FIXED] + [render(gen_case(rng)) for _ in range(ncases)]
+    ncases = 10000 if quick else 150000
+    lines = [f[1] for f in FIXED] + corpus_sequences() + [render(gen_case(rng)) for _ in range(ncases)]
     m_ans = run_model(model, lines)
     i_ans = run_impl(impl, lines)
     cov = {"sequences": len(lines), "unify_calls": 0, "ok": 0, "err_mismatch": 0, "err_length": 0, "err_circular": 0,
